@@ -224,13 +224,13 @@ def audit_axioms(prop_module, extra_names=()):
     raw = p.stdout + p.stderr
     viol = []
     seen = set()
-    for m in re.finditer(r"'([^']+)' depends on axioms: \[([^\]]*)\]", raw, re.S):
+    for m in re.finditer(r"^'(.+?)' depends on axioms: \[([^\]]*)\]", raw, re.M):
         seen.add(m.group(1))
         axs = [a.strip() for a in m.group(2).replace("\n", " ").split(",") if a.strip()]
         for a in axs:
             if a not in ALLOWED_AXIOMS:
                 viol.append("%s depends on %s" % (m.group(1), a))
-    for m in re.finditer(r"'([^']+)' does not depend on any axioms", raw):
+    for m in re.finditer(r"^'(.+?)' does not depend on any axioms", raw, re.M):
         seen.add(m.group(1))
     for n in names:
         if n not in seen:
